@@ -434,3 +434,56 @@ def listener_pairing(ctx, res):
                "get_delegate_pattern is no longer used to build the "
                "class-level listener table")
     res.floor(2)
+
+
+
+@rule("C11.listener-restore", ["C11"],
+      "_remove_trait_delegate_listener(name, remove=False) - the call made "
+      "when a local override is deleted - re-installs the forwarding "
+      "listener unless it is already recorded: no other exit on that branch")
+def listener_restore(ctx, res):
+    from .containers import FactFlow
+    repo = get_pyrepo(ctx)
+    mod = repo.module(HT)
+    fn = repo.func(HT, "HasTraits._remove_trait_delegate_listener")
+    ps = [a.arg for a in fn.args.args]
+    namep, rmp = ps[1], ps[2]
+
+    class F(FactFlow):
+        def classify(s, e, node):
+            if is_self_call(e, "_init_trait_delegate_listener"):
+                return [("INIT", False)]
+            return []
+
+        def step(s, st, ev, e, node):
+            return st | {("DID", "init")}
+    fl = F(mod, fn, "HasTraits._remove_trait_delegate_listener")
+    fl.run(frozenset())
+    g = fl.cfg
+    bad = []
+    n_paths = 0
+    for st in fl.states[g.exit.id]:
+        if ("T", rmp) in st:
+            continue            # the removing call
+        n_paths += 1
+        if ("DID", "init") in st:
+            continue
+        recorded = any(f[0] == "F" and f[1].startswith(f"{namep} not in ")
+                       for f in st) or any(
+            f[0] == "T" and f[1].startswith(f"{namep} in ") for f in st)
+        if not recorded:
+            bad.append(st)
+    res.instance("_remove_trait_delegate_listener:restore", mod.loc(fn),
+                 restore_paths=n_paths)
+    if n_paths == 0:
+        raise AnalysisError("_remove_trait_delegate_listener: no "
+                            "remove=False path")
+    res.oblige(not bad, "_remove_trait_delegate_listener:restore",
+               mod.loc(fn),
+               f"with remove=False the function can return without "
+               f"re-installing the forwarding listener although the name is "
+               f"not recorded as having one (facts: "
+               f"{sorted(str(f) for f in (bad[0] if bad else []))[:5]}): "
+               f"after `del obj.x` restores the link, changes of the "
+               f"prototype are no longer announced on obj.x")
+    res.floor(1)
